@@ -30,6 +30,7 @@ pub enum MapFn {
     Fst,
     Snd,
     Dup,
+    Track,
 }
 
 #[derive(Clone, Debug, PartialEq)]
@@ -185,6 +186,9 @@ impl<'a> Rd<'a> {
     pub fn new(line: &'a str) -> Self {
         Rd { toks: line.split_ascii_whitespace().collect(), i: 0 }
     }
+    pub fn new_tokens(toks: &[&'a str]) -> Self {
+        Rd { toks: toks.to_vec(), i: 0 }
+    }
     pub fn done(&self) -> bool {
         self.i >= self.toks.len()
     }
@@ -244,6 +248,7 @@ impl<'a> Rd<'a> {
             "fst" => MapFn::Fst,
             "snd" => MapFn::Snd,
             "dup" => MapFn::Dup,
+            "track" => MapFn::Track,
             t => return Err(format!("bad mapfn {t}")),
         })
     }
